@@ -239,6 +239,30 @@ M("c01-benign-switch-to-if", "C01", "json_tokener.c",
   "\t\t\tif (c == ':')\n\t\t\t{\n\t\t\t\tsaved_state = json_tokener_state_object_value;",
   "\t\t\tif (!(c != 0x3a))\n\t\t\t{\n\t\t\t\tsaved_state = json_tokener_state_object_value;", expect="silent")
 
+# ---- C04 -------------------------------------------------------------------------------------
+M("c04-lookahead", "C04", "json_tokener.c",
+  "\t\t\telse if (c == '/')\n\t\t\t{\n\t\t\t\tstate = json_tokener_state_comment_eol;",
+  "\t\t\telse if (c == '/' && str[1] != '!')\n\t\t\t{\n\t\t\t\tstate = json_tokener_state_comment_eol;", needle="look-ahead")
+M("c04-reset-forgets-hs", "C04", "json_tokener.c",
+  "\ttok->err = json_tokener_success;\n\ttok->high_surrogate = 0;\n}", "\ttok->err = json_tokener_success;\n}", needle="high_surrogate")
+M("c04-reset-skips-level0", "C04", "json_tokener.c",
+  "\tfor (i = tok->depth; i >= 0; i--)\n\t\tjson_tokener_reset_level(tok, i);\n\ttok->depth = 0;",
+  "\tfor (i = tok->depth; i > 0; i--)\n\t\tjson_tokener_reset_level(tok, i);\n\ttok->depth = 0;", needle="json_tokener_reset")
+M("c04-free-forgets-stack", "C04", "json_tokener.c",
+  "\t\tprintbuf_free(tok->pb);\n\tfree(tok->stack);\n\tfree(tok);", "\t\tprintbuf_free(tok->pb);\n\tfree(tok);", needle="json_tokener_free")
+M("c04-value-with-error", "C04", "json_tokener.c",
+  "\tif (tok->err == json_tokener_success)\n\t{\n\t\tjson_object *ret = json_object_get(current);",
+  "\tif (tok->err == json_tokener_success || tok->err == json_tokener_error_parse_eof)\n\t{\n\t\tjson_object *ret = json_object_get(current);", needle="C04.R3", tier="quick")
+M("c04-continue-without-progress", "C04", "json_tokener.c",
+  "\t\t\tif (c == '*')\n\t\t\t{\n\t\t\t\tstate = json_tokener_state_comment;\n\t\t\t}",
+  "\t\t\tif (c == '*')\n\t\t\t{\n\t\t\t\tstate = json_tokener_state_comment;\n\t\t\t\ttok->err = json_tokener_continue;\n\t\t\t\tgoto out;\n\t\t\t}", needle="")
+M("c04-size-guard-late", "C04", "json_tokener.c",
+  "\tif ((len < -1) || (len == -1 && strlen(str) > INT32_MAX))", "\tif ((len < -2) || (len == -1 && strlen(str) > INT32_MAX))", needle="")
+M("c04-probe-mutates", "C04", "json_tokener.c",
+  "\t            : (((tok)->err = json_tokener_continue), 0))             \\", "\t            : (((tok)->err = json_tokener_continue), (tok)->st_pos = 0, 0)) \\", needle="")
+M("c04-benign-reset-order", "C04", "json_tokener.c",
+  "\ttok->depth = 0;\n\ttok->err = json_tokener_success;\n\ttok->high_surrogate = 0;", "\ttok->high_surrogate = 0;\n\ttok->err = json_tokener_success;\n\ttok->depth = 0;", expect="silent")
+
 
 def sh(cmd, **kw):
     return subprocess.run(cmd, shell=isinstance(cmd, str), stdout=subprocess.PIPE, stderr=subprocess.STDOUT, text=True, **kw)
